@@ -23,6 +23,7 @@ var pureNatives map[string]pureNativeFn
 const nsPerSec = "1000000000"
 
 func init() {
+	pureNatives = map[string]pureNativeFn{}
 	natives = map[string]nativeFn{
 		"time.Now":   nativeNow,
 		"time.Since": func(fr *Frame, st *State, a []Val, p token.Pos) Val { return timeSub(fr.run.clockRead(st), fr.toTerm(a[0])) },
@@ -33,6 +34,13 @@ func init() {
 	}
 	natives["sort.Slice"] = nativeSortSlice
 	natives["sort.SliceStable"] = nativeSortSlice
+	natives["strconv.Itoa"] = func(fr *Frame, st *State, a []Val, p token.Pos) Val {
+		return fr.run.itoa(fr.toTerm(a[0]))
+	}
+	natives["strconv.FormatInt"] = func(fr *Frame, st *State, a []Val, p token.Pos) Val {
+		return fr.run.itoa(fr.toTerm(a[0])) // base is ignored: callers use base 10 (assumption)
+	}
+	pureNatives["strconv.Itoa"] = func(r *Run, env *SpecEnv, a []SV) SV { return SV{t: r.itoa(a[0].t), T: types.Typ[types.String]} }
 	natives["fmt.Sprint"] = func(fr *Frame, st *State, a []Val, p token.Pos) Val {
 		return fr.run.havoc("sprint", "Str")
 	}
@@ -42,7 +50,6 @@ func init() {
 			return nil
 		}
 	}
-	pureNatives = map[string]pureNativeFn{}
 	B := types.Typ[types.Bool]
 	I64 := types.Typ[types.Int64]
 	reg := func(name string, retT func(a []SV) types.Type, f func(r *Run, a []Term) Term) {
@@ -267,4 +274,14 @@ func nativeSortSlice(fr *Frame, st *State, args []Val, pos token.Pos) Val {
 	r.assume(st, Term{fmt.Sprintf("(forall ((i_ Int) (j_ Int)) (=> (and (<= 0 i_) (< i_ j_) (< j_ %s)) (not %s)))", ln.S, less.S), "Bool"})
 	r.noteAssume("sort.Slice leaves a permutation (mutual membership) ordered by the less function")
 	return nil
+}
+
+
+// itoa: decimal rendering of an integer: an injective uninterpreted function
+func (r *Run) itoa(n Term) Term {
+	u := r.eng.u
+	u.ufunc("str_itoa", []string{"Int"}, "Str")
+	u.ufunc("str_atoi", []string{"Str"}, "Int")
+	u.axiom("(forall ((n Int)) (! (= (str_atoi (str_itoa n)) n) :pattern ((str_itoa n))))")
+	return app("Str", "str_itoa", n)
 }
